@@ -110,6 +110,22 @@ func c06Eval(v []int) (string, string, bool) {
 		}
 	}
 	l0 := cfg.Listens[0]
+	if s.Val(v, "earlier") == "relayed-before-learning" {
+		// the same listener already relayed a request to this hop while nothing was known about it
+		em := MsgSpec{Method: "OPTIONS", RURI: "sip:bob@foreign.example.net", Vias: []string{"SIP/2.0/" + strings.ToUpper(arrival) + " 127.0.0.9:5060;branch=z9hG4bKearlier"},
+			From: "<sip:alice@ua.example.net>;tag=e1", To: "<sip:bob@nomatch.example.org>", CallID: "c06-earlier", CSeq: "1 OPTIONS"}
+		if path == "static" {
+			em.To = "<sip:bob@static.example.org>"
+		} else {
+			em.Routes = []string{"<sip:" + hopHost + ":5070;lr>"}
+		}
+		if arrival == "tcp" {
+			w.SendTCP(w.Client("ua", "127.0.0.9", fmt.Sprintf("%s:%d", l0.Addr, l0.TCP)), em.Build().Render())
+		} else {
+			w.SendUDP("127.0.0.9:5060", fmt.Sprintf("%s:%d", l0.Addr, l0.UDP), em.Build().Render())
+		}
+		w.Observe()
+	}
 	first := func(l RListen) (string, string, int) {
 		if l.UDP > 0 {
 			return "udp", fmt.Sprintf("%s:%d", l.Addr, l.UDP), l.UDP
@@ -364,6 +380,7 @@ func init() {
 	c06Spec = &EnumSpec{Feats: []Feat{
 		{Name: "path", Vals: []string{"backend", "route", "static"}},
 		{Name: "learned", Vals: []string{"not", "by-source", "by-via", "by-via-name", "by-source-tcp", "other-listener", "relearned", "by-via-detached"}},
+		{Name: "earlier", Vals: []string{"none", "relayed-before-learning"}},
 		{Name: "mustrr", Vals: []string{"off", "on"}},
 		{Name: "listeners", Vals: []string{"udp+tcp", "two-entries", "udp-only", "tcp-only"}},
 		{Name: "nvias", Vals: []string{"0", "1", "2", "3", "4", "5", "6"}, Quick: 5},
@@ -391,6 +408,9 @@ func init() {
 		if s.Val(v, "path") == "backend" && v[s.idx("learned")] != 0 {
 			return false
 		}
+		if v[s.idx("earlier")] != 0 && (s.Val(v, "path") == "backend" || v[s.idx("learned")] == 0) {
+			return false
+		}
 		if s.Val(v, "learned") == "by-via-name" && s.Val(v, "path") != "route" {
 			return false
 		}
@@ -406,7 +426,7 @@ func init() {
 		return true
 	}
 	addCheck(&Check{ID: "C06", Level: "exploration",
-		Rule:   "complete product: relaying path x how the next hop was learned (not / earlier request from it / listed in an earlier Via by address or by name or in a Via line detached from the first Via block / through the TCP listener / through the other listens entry / re-learned) x must-record-route x listener set x 0-4 (thorough 0-6) existing Via entries in 4 layouts x 0-3 (thorough 0-4) Record-Route entries in layouts x position of Record-Route among the other headers x From/Max-Forwards order; each on a fresh world with the learning history replayed first; plus a freshness run relaying 20000 requests through one world; non-trivial = the request was relayed",
+		Rule:   "complete product: relaying path x how the next hop was learned (not / earlier request from it / listed in an earlier Via by address or by name or in a Via line detached from the first Via block / through the TCP listener / through the other listens entry / re-learned) x {fresh, the same listener already relayed a request to that hop before it was learned} x must-record-route x listener set x 0-4 (thorough 0-6) existing Via entries in 4 layouts x 0-3 (thorough 0-4) Record-Route entries in layouts x position of Record-Route among the other headers x From/Max-Forwards order; each on a fresh world with the learning history replayed first; plus a freshness run relaying 20000 requests through one world; non-trivial = the request was relayed",
 		Assume: []string{"two-listener worlds give both entries the same must-record-route setting (the statement does not say whose setting counts)", "next hop named as it was learned (address literal or the same host name): equivalence of names and addresses for learning is not prescribed"},
 		Run: func(c *Ctx) {
 			c06Spec.Run(c)
